@@ -152,20 +152,7 @@ impl<W: 'static, R: 'static, T: 'static> RuntimeScopeTemplate<W, R, T> {
         output: Option<Box<XExpr<W, R, T>>>,
     ) -> RuntimeResult<Rc<Self>> {
         // in order to get the namespace parent, we need to go up the stack until we reach one with the same id
-        let scope_parent = if let Some(parent_id) = parent_id {
-            {
-                let mut ancestor = stack_parent;
-                loop {
-                    match ancestor {
-                        None => break ancestor,
-                        Some(p) if p.template.id == parent_id => break ancestor,
-                        Some(p) => ancestor = p.scope_parent,
-                    }
-                }
-            }
-        } else {
-            None
-        };
+        let scope_parent = parent_id.and_then(|parent_id| RuntimeScope::find_scope_parent(stack_parent, parent_id));
         let mut cells = Vec::with_capacity(cell_specs.len());
         for cell_spec in cell_specs {
             let cell = EvaluationCell::from_spec(cell_spec, scope_parent)?;
@@ -198,6 +185,8 @@ pub struct RuntimeScope<'a, W, R, T> {
     pub(crate) cells: Vec<TemplatedEvaluationCell<W, R, T>>,
     height: StackDepth,
     scope_parent: Option<&'a Self>,
+    // the scope this one was entered from (the caller), down to the root scope
+    stack_parent: Option<&'a Self>,
     template: Rc<RuntimeScopeTemplate<W, R, T>>,
 }
 
@@ -208,20 +197,9 @@ impl<'a, W: 'static, R: 'static, T: 'static> RuntimeScope<'a, W, R, T> {
         rt: RTCell<W, R, T>,
         mut args: Vec<EvaluatedValue<W, R, T>>,
     ) -> RuntimeResult<Rc<Self>> {
-        let scope_parent = if let Some(parent_id) = template.scope_parent_id {
-            {
-                let mut ancestor = stack_parent;
-                loop {
-                    match ancestor {
-                        None => break ancestor,
-                        Some(p) if p.template.id == parent_id => break ancestor,
-                        Some(p) => ancestor = p.scope_parent,
-                    }
-                }
-            }
-        } else {
-            None
-        };
+        let scope_parent = template
+            .scope_parent_id
+            .and_then(|parent_id| Self::find_scope_parent(stack_parent, parent_id));
         let mut ret = Self {
             cells: template
                 .cells
@@ -237,6 +215,7 @@ impl<'a, W: 'static, R: 'static, T: 'static> RuntimeScope<'a, W, R, T> {
                 .collect(),
             height: stack_parent.map_or(StackDepth(0), |p| p.height + StackDepth(1)),
             scope_parent,
+            stack_parent,
             template: template.clone(),
         };
         if rt
@@ -468,6 +447,24 @@ impl<'a, W: 'static, R: 'static, T: 'static> RuntimeScope<'a, W, R, T> {
                 }
             }
         }
+    }
+
+    /// the scope with template `parent_id` among the lexical ancestors of the calling scope. A function value that
+    /// escaped the call that created it has no lexical parent left; the root scope, however, lives as long as the
+    /// evaluation and is the bottom of every call stack, so a function declared at the root is always found
+    fn find_scope_parent(stack_parent: Option<&'a Self>, parent_id: usize) -> Option<&'a Self> {
+        let mut ancestor = stack_parent;
+        while let Some(p) = ancestor {
+            if p.template.id == parent_id {
+                return Some(p);
+            }
+            ancestor = p.scope_parent;
+        }
+        let mut root = stack_parent?;
+        while let Some(p) = root.stack_parent {
+            root = p;
+        }
+        (root.template.id == parent_id).then_some(root)
     }
 
     fn try_scope_ancestor_at_depth(&self, depth: ScopeDepth) -> Option<&Self> {
